@@ -212,6 +212,23 @@ def run(tier, seed):
         s = bytes(ck.rng.choice([255, 255, 253, 251, 250, 240, 1, 3, 0x61]) for _ in range(n))
         k = ck.rng.randint(0, min(4, n - 1))
         adv.append((None, cut(s, ck.rng.sample(range(1, n), k) if n > 1 else []), False))
+    # deterministic tapes right behind the quantifier's bound (11-13 commands: one chunk, one chunk per command, a cut before /
+    # inside the command behind the limit) and malformed commands (IAC NOP, IAC IAC): model and code must agree there too
+    # (theorem limit_is_sharp: the sync transport leaves negotiation mode after `limit` commands, so behind it the result depends
+    # on the segmentation and differs from asyncio -- outside the property, but the model must say what the code does)
+    for ncmd in (11, 12, 13):
+        for verb in (253, 251):
+            cmds = [bytes([255, verb, 1 + (i % 5)]) for i in range(ncmd)]
+            tail = b"a\x00b"
+            whole = b"".join(cmds) + tail
+            adv.append((None, [whole], False))
+            adv.append((None, cmds + [tail], False))
+            adv.append((None, [b"".join(cmds[:10]), b"".join(cmds[10:]) + tail], False))
+            adv.append((None, [b"".join(cmds[:10]) + cmds[10][:1], cmds[10][1:] + b"".join(cmds[11:]) + tail], False))
+            adv.append((None, [b"".join(cmds[:9]), cmds[9] + cmds[10][:2], cmds[10][2:] + b"".join(cmds[11:]) + tail], False))
+    for weird in (b"\xff\xf1login:", b"\xff\xffx", b"a\xff\xf9b\xff\xfd\x01c", b"\xff\xfa\x18\x01\xff\xf0z", b"\xff"):
+        adv.append((None, [weird], False))
+        adv.append((None, [weird[:1], weird[1:]] if len(weird) > 1 else [weird], False))
     allc = cases + adv
     # 4 model
     lines = []
@@ -262,14 +279,14 @@ def run(tier, seed):
                     continue
                 got = f"{hexs(r[0])} {hexl(r[1])}"
                 if got != ml:
-                    if indom:
-                        ck.disagree(f"Telnet model vs {stack} transport", case, f"impl={got} model={ml}")
-                    else:
+                    # outside the property's quantifier the ORACLE does not apply, but the model must still say what the code does
+                    ck.disagree(f"Telnet model vs {stack} transport" + ("" if indom else " (stream outside the quantifier)"), case, f"impl={got} model={ml}")
+                    if not indom:
                         adv_dis += 1
-                elif indom:
+                else:
                     ck.traces_validated += 1
-    ck.extra["advisory_out_of_domain_cases"] = len(adv)
-    ck.extra["advisory_out_of_domain_disagreements"] = adv_dis
+    ck.extra["out_of_domain_cases_model_vs_code"] = len(adv)
+    ck.extra["out_of_domain_disagreements"] = adv_dis
     ck.exhaustive = True
     ck.extra["exhaustive_scope"] = f"all streams of <= {nmax} items over a 15-item alphabet x all single/double cuts"
     return ck.finish()
